@@ -167,6 +167,14 @@ def h_rows(mode):
         sp.exc_table.update({'ExpressionError': 'Exception'})
         row_hooks(sp)
         I = Interp(ctx, sp)
+        seen = {}
+        orig_assign = I.assign
+
+        def assign(t, v, frm):
+            if isinstance(v, Obj) and v.cls == 'row':
+                seen['row'] = v
+            return orig_assign(t, v, frm)
+        I.assign = assign
         transforms, data_sources, rules = Obj(ctx.fresh('transforms', ObjS)), Obj(ctx.fresh('data_sources', ObjS)), Obj(ctx.fresh('rules', ObjS))
 
         sp.models['_iter_rows_with_delimiter'] = Func(lambda I_, a, k, n: SymSeq([rows], None, ['row']))
@@ -189,8 +197,7 @@ def h_rows(mode):
 
         def m_normalize(I_, a, k, n):
             # call-site clause: the row's own values and the caller's settings are what is classified
-            cur = I_.frames[-1].env
-            r = to_z3(cur['row'])
+            r = to_z3(seen['row'])        # the element the row loop is at (captured when the loop binds it, whatever the local is called)
             c = I_.ctx
             c.check('C05.classified.description_is_row_description', to_z3(a[0], StrS) == sh.desc(r), 'property')
             c.check('C05.classified.rules_passed', to_z3(a[1]) == rules.expr, 'property')
